@@ -168,3 +168,96 @@ Proof.
   - rewrite unfold_eq. cbn [map]. rewrite unfold_eq, Ha, Hu. reflexivity.
   - unfold supported in *. cbn [supportedb forallb]. rewrite S. reflexivity.
 Qed.
+
+(** * On an ordered heap the unfolding exists (the recursion of sizeof ends) *)
+Lemma all_some_exists {A B} (f : A -> option B) l :
+  (forall x, In x l -> exists t, f x = Some t) -> exists r, all_some (map f l) = Some r.
+Proof.
+  induction l as [|x l IH]; intros H; cbn [map all_some]; [eauto|].
+  destruct (H x (or_introl eq_refl)) as [t ->].
+  destruct IH as [r ->]; [intros y Hy; apply H; right; exact Hy|]. eauto.
+Qed.
+
+Lemma gheight_pos v : (1 <= gheight v)%nat.
+Proof. destruct v as [| |[?|]| | |[?|]| |[?|]| |]; cbn [gheight]; lia. Qed.
+
+Lemma fold_max_le {A} (g : A -> nat) l x :
+  In x l -> (g x <= fold_right (fun y m => Nat.max (g y) m) 0%nat l)%nat.
+Proof.
+  induction l as [|y l IH]; intros H; [contradiction|]. cbn [fold_right].
+  destruct H as [->|H]; [lia|]. specialize (IH H). lia.
+Qed.
+
+Lemma ordered_from_nth : forall cells start a c,
+  ordered_from start cells = true -> nth_error cells a = Some c -> refs_below (start + a) c = true.
+Proof.
+  induction cells as [|c0 cells IH]; intros start a c H Hn; [destruct a; discriminate|].
+  cbn [ordered_from] in H. apply andb_prop in H as [H0 H1].
+  destruct a as [|a]; cbn [nth_error] in Hn.
+  - injection Hn as <-. rewrite Nat.add_0_r. exact H0.
+  - replace (start + S a)%nat with (S start + a)%nat by lia. apply (IH _ _ _ H1 Hn).
+Qed.
+
+Lemma heap_height_nth h a c : nth_error h a = Some c -> (gheight c <= heap_height h)%nat.
+Proof.
+  intros H. apply nth_error_In in H. unfold heap_height.
+  apply (fold_max_le gheight h c H).
+Qed.
+
+Lemma unfold_total h D :
+  ordered h = true ->
+  (forall a c, nth_error h a = Some c -> (gheight c < D)%nat) ->
+  forall n, (n <= length h)%nat ->
+  forall k x, refs_below n x = true -> (gheight x <= k)%nat ->
+  exists t, unfold h (n * D + k) x = Some t.
+Proof.
+  intros Ho HD. induction n as [n IHn] using lt_wf_ind. intros Hn.
+  induction k as [|k IHk]; intros x Hr Hk.
+  - pose proof (gheight_pos x). lia.
+  - rewrite Nat.add_succ_r, unfold_eq.
+    destruct x as [s|bs|[l|]|l|kvs|[y|]|a|[y|]|fs|]; cbn [refs_below gheight] in Hr, Hk; eauto.
+    + destruct (all_some_exists (unfold h (n * D + k)) l) as [r ->]; [|cbn; eauto].
+      intros y Hy. rewrite forallb_forall in Hr. apply IHk; [apply Hr, Hy|].
+      pose proof (fold_max_le gheight l y Hy). lia.
+    + destruct (all_some_exists (unfold h (n * D + k)) l) as [r ->]; [|cbn; eauto].
+      intros y Hy. rewrite forallb_forall in Hr. apply IHk; [apply Hr, Hy|].
+      pose proof (fold_max_le gheight l y Hy). lia.
+    + destruct (all_some_exists (fun kv => pair_some (unfold h (n * D + k) (fst kv)) (unfold h (n * D + k) (snd kv))) kvs)
+        as [r ->]; [|cbn; eauto].
+      intros [ky y] Hy. rewrite forallb_forall in Hr. specialize (Hr _ Hy). cbn [fst snd] in *.
+      apply andb_prop in Hr as [R1 R2].
+      pose proof (fold_max_le (fun kv : gvalue * gvalue => Nat.max (gheight (fst kv)) (gheight (snd kv))) kvs (ky, y) Hy) as M.
+      cbn [fst snd] in M.
+      destruct (IHk ky R1) as [t1 ->]; [lia|]. destruct (IHk y R2) as [t2 ->]; [lia|]. cbn. eauto.
+    + destruct (IHk y Hr) as [t ->]; [lia|]. cbn. eauto.
+    + apply Nat.ltb_lt in Hr.
+      destruct (nth_error h a) as [c|] eqn:Ha.
+      2:{ apply nth_error_None in Ha. lia. }
+      pose proof (ordered_from_nth h 0 a c Ho Ha) as Rc. cbn [Nat.add] in Rc.
+      pose proof (HD a c Ha) as Hc.
+      destruct (IHn a Hr ltac:(lia) (D - 1)%nat c Rc ltac:(lia)) as [t Ht].
+      rewrite (unfold_mono h c t (a * D + (D - 1)) (n * D + k)); [cbn; eauto| |exact Ht].
+      assert ((S a) * D <= n * D)%nat by (apply Nat.mul_le_mono_r; lia). lia.
+    + destruct (IHk y Hr) as [t ->]; [lia|]. cbn. eauto.
+    + destruct (all_some_exists (unfold h (n * D + k)) fs) as [r ->]; [|cbn; eauto].
+      intros y Hy. rewrite forallb_forall in Hr. apply IHk; [apply Hr, Hy|].
+      pose proof (fold_max_le gheight fs y Hy). lia.
+Qed.
+
+(** size.Of of a value of an ordered heap: the recursion ends within [enough_fuel] nested calls
+    and returns the structural sum of the tree unfolding *)
+Theorem gsizeof_ordered : forall h v,
+  ordered h = true -> refs_below (length h) v = true ->
+  exists t, unfold h (enough_fuel h v) v = Some t /\
+            (supported t -> gsizeof h (enough_fuel h v) v = Some (spec_size t)).
+Proof.
+  intros h v Ho Hr.
+  set (D := S (Nat.max (heap_height h) (gheight v))).
+  assert (HD : forall a c, nth_error h a = Some c -> (gheight c < D)%nat).
+  { intros a c Ha. pose proof (heap_height_nth h a c Ha). unfold D. lia. }
+  destruct (unfold_total h D Ho HD (length h) (le_n _) (gheight v) v Hr (le_n _)) as [t Ht].
+  assert (Ht' : unfold h (enough_fuel h v) v = Some t).
+  { apply (unfold_mono h v t (length h * D + gheight v)); [|exact Ht].
+    unfold enough_fuel. fold D. unfold D. lia. }
+  exists t. split; [exact Ht'|]. intros S. apply gsizeof_unfold; assumption.
+Qed.
